@@ -32,6 +32,7 @@ var (
 	fMinimise = flag.String("minimise", "", "minimise this failing case file (driver use)")
 	fNoRef    = flag.Bool("noref", false, "skip the isolated reference pass (race workers: the race detector is the oracle)")
 	fClass    = flag.String("class", "", "violation class to preserve while minimising / to expect on replay")
+	fGYields  = flag.Bool("gyields", false, "generated cases also switch tasks before statements touching process-wide state (the 'instr' pass)")
 	fList     = flag.String("list", "", "comma-separated run indices to execute, in that order (instead of -first/-runs)")
 )
 
@@ -68,6 +69,14 @@ type WorkerReport struct {
 }
 
 func genCase(mode string, seed uint64, run int, tier string) (*Case, error) {
+	c, err := genCase0(mode, seed, run, tier)
+	if c != nil && *fGYields {
+		c.Knobs.GYields = true
+	}
+	return c, err
+}
+
+func genCase0(mode string, seed uint64, run int, tier string) (*Case, error) {
 	switch mode {
 	case "C04":
 		return genC04(seed, run, tier), nil
@@ -196,6 +205,7 @@ func TestSim(t *testing.T) {
 	_ = setLocal("UTC")
 	verifyield.Hook = yieldHook
 	verifyield.LockHook = lockHook
+	verifyield.GoHook, verifyield.BlockHook, verifyield.UnblockHook, verifyield.WrapHook = goHook, blockHook, unblockHook, wrapHook
 
 	if *fMinimise != "" {
 		runMinimise(t)
